@@ -355,6 +355,23 @@ def run_table(rec: Rec, desc: list, extra_paths: bool = False, label: str = "tab
             for hid, route in b.route_objs.items():
                 res = route.resource
                 info = res.get_info()
+                if "path" in info and "formatter" not in info and "prefix" not in info:
+                    # a plain resource: the URL it names must be one a client can request, and requesting it must get there
+                    try:
+                        url = res.url_for()
+                    except Exception as e:  # noqa: BLE001
+                        raise Violation(hyp.exc_key(e, "url_for-raised"), f"url_for() on plain resource {info['path']!r}: {e!r}")
+                    target = str(url)
+                    rec.case(("url_for", info["path"], ""), True, ["url_for", "url_for-plain"])
+                    if any(c in target for c in " \t\r\n") or not target.isascii():
+                        raise Violation("url_for-not-inverse", f"url_for() of plain resource {info['path']!r} = {target!r}: not a request target (unquoted characters); table {desc}")
+                    req = make_mocked_request(route.method if route.method != "*" else "GET", target, headers={"Host": HOSTS[0]}, app=app)
+                    mi = await app.router.resolve(req)
+                    if mi.http_exception is not None:
+                        w = model.resolve(norm_path(url.raw_path), req.method, HOSTS[0])[0]
+                        if w[0] == "ok":
+                            raise Violation("url_for-not-inverse", f"url_for() of plain resource {info['path']!r} = {target!r} resolves to {mi.http_exception.status}; table {desc}")
+                    continue
                 if "formatter" in info:
                     names = re.findall(r"\{([_a-zA-Z][_a-zA-Z0-9]*)\}", info["formatter"])
                     tmpl = res._orig_path if hasattr(res, "_orig_path") else ""
@@ -366,6 +383,8 @@ def run_table(rec: Rec, desc: list, extra_paths: bool = False, label: str = "tab
                             url = res.url_for(**params)
                         except Exception as e:  # noqa: BLE001
                             raise Violation(hyp.exc_key(e, "url_for-raised"), f"url_for({params}) on {tmpl}: {e!r}")
+                        if any(c in str(url) for c in " \t\r\n") or not str(url).isascii():
+                            raise Violation("url_for-not-inverse", f"url_for({params}) of {tmpl!r} = {str(url)!r}: not a request target (unquoted characters); table {desc}")
                         req = make_mocked_request(route.method if route.method != "*" else "GET", str(url), headers={"Host": HOSTS[0]}, app=app)
                         mi = await app.router.resolve(req)
                         rec.case(("url_for", tmpl, val), True, ["url_for"])
